@@ -29,6 +29,14 @@ def _make_fn(name, nparams, impl, first="p"):
     return ns[name]
 
 
+def _anyarg_step(argnode):
+    """An Evaluatable domain that every value satisfies but that needs another option in order to be evaluated."""
+    @pipeline_step
+    def anyarg(x, arg=argnode):
+        return True
+    return anyarg
+
+
 class Built:
     def __init__(self, spec, cache_factory=None):
         self.spec = spec
@@ -224,6 +232,8 @@ class Built:
                 kw["domain"] = list(dom["v"])
             elif dom["t"] == "pred":
                 kw["domain"] = sem.PREDS[dom["p"]]
+            elif dom["p"] == "anyarg":
+                kw["domain"] = _anyarg_step(self.node(dom["arg"]))
             else:
                 kw["domain"] = getattr(F, dom["p"])(self.node(dom["arg"]))
         return Option(n["key"], **kw)
